@@ -190,7 +190,7 @@ def replay(seed, idx, desc, name, be):
 
 
 def run(tier, seed):
-    chk = Check("C08", tier, seed, "exploration")
+    chk = Check("C08", tier, seed, "other")
     try:
         from ..kernels import c01_lowering, c08_align, c01_decompose
         for k in c01_lowering.KERNELS + c08_align.KERNELS + c01_decompose.KERNELS:
